@@ -202,8 +202,10 @@ func (tw *TimingWheel) moveTask(task baseEntry) {
 
 	timer := val.(*positionEntry)
 	if task.delay < tw.interval {
+		// copy key and value, the entry may be updated by later operations while the goroutine runs
+		key, value := timer.item.key, timer.item.value
 		threading.GoSafe(func() {
-			tw.execute(timer.item.key, timer.item.value)
+			tw.execute(key, value)
 		})
 		return
 	}
